@@ -82,6 +82,7 @@ def gen_bo(tape, spec):
             'acq': acq, 'n_evidence': n_evidence, 'continue': cont,
             'async': tape.chance('async_acq', 1, 4), 'seed': tape.int('seed', 0, 2 ** 20),
             'via_infer': tape.chance('via_infer', 1, 10),
+            'tm_order': tape.choice('surrogate_param_order', ['sorted', 'sorted', 'reversed']),
             'bolfi': tape.chance('bolfi', 1, 3)}
 
 
@@ -111,6 +112,10 @@ class BoRun:
         model, _ = sp.build_model(elfi, spec)
         self.model = model
         names = sorted(spec['params'])
+        if cfg.get('tm_order') == 'reversed':
+            # a user-supplied surrogate may list the parameters in any order; its order fixes
+            # the columns of bounds, acquisitions and evidence
+            names = names[::-1]
         tm = GPyRegression(names, bounds=cfg['bounds'])
         prior = ModelPrior(model, parameter_names=names)
         kw = dict(noise_var=cfg['noise'], seed=cfg['seed'])
